@@ -87,6 +87,14 @@ def strategy_(draw):
     tsig = gen.leaves_of([d for d in sp["states"] if not d.get("quad")]) + gen.leaves_of(sp["controls"])
     cons.append({"lhs": [draw(st.sampled_from(tsig))], "rel": draw(st.sampled_from(["<=", ">="])), "rhs": [["+", draw(st.sampled_from(pl)), E.C(draw(gen.small()))]], "grid": None,
                  "include_first": True, "include_last": True})
+    sigp_ = gen.leaves_of([d for d in sp["params"] if d.get("grid", "") != ""])
+    if sigp_ and draw(st.booleans()):
+        # per-interval / per-node parameters reached through a shifted operand: which column applies at the shifted node
+        # (for include_last parameters the extra column at the final node)
+        o = draw(st.sampled_from([o for o in (1, 1, -1, 2) if abs(o) <= sp["method"]["N"]]))
+        node = ["off", ["-", draw(st.sampled_from(tsig)), draw(st.sampled_from(sigp_))], o] + (["next"] if o == 1 and draw(st.booleans()) else [])
+        cons.append({"lhs": [["+", ["*", E.C(draw(c04.lead_coef())), draw(st.sampled_from(tsig))], node]], "rel": draw(st.sampled_from(["<=", "==", ">="])),
+                     "rhs": [E.C(draw(gen.small()))], "grid": None, "include_first": True, "include_last": True})
     sp["constraints"] = cons
     # A horizon start of exactly 0 written in as a constant makes CasADi drop a product `prev(x)*t0` from a constraint, and with it the
     # exclusion of the first node: the twin would be a different problem by construction, not by a defect. Keep t0 != 0 there.
